@@ -7,8 +7,71 @@ use super::common::*;
 use super::{Ctx, PropertyDef, Scenario, COMMON_ASSUMPTIONS};
 use crate::cache::command::{CommandStatus, RejectionReason};
 use crate::harness::kit::*;
+use crate::harness::ilv::{program_scenario, IlvCfg, Oracle, Program, Run};
 use crate::harness::seq::*;
 use std::sync::Arc;
+
+/// ilv: several puts of one key in flight at once. Whatever the interleaving, at most one of them is accepted
+/// while the key stays readable, and an accepted put's value / weight / expiry are not overwritten by a later one.
+fn ilv_oracle() -> Oracle {
+    Arc::new(|run: &Run, out: &mut Vec<crate::harness::ilv::Finding>| {
+        use crate::harness::ilv::Finding;
+        let k: K = 1;
+        let puts: Vec<&Call> = run.calls.iter().filter(|c| matches!(c.op, Op::Put { .. }) && c.op.key() == Some(k) && c.thread < PHASE_INIT).collect();
+        let deleted = run.calls.iter().any(|c| matches!(c.op, Op::Delete { .. }) && c.op.key() == Some(k));
+        let accepted: Vec<&&Call> = puts.iter().filter(|c| run.status_of(c.thread, c.idx) == Some(CommandStatus::Accepted)).collect();
+        if !deleted {
+            let pre = run.obs_init.entry(k).is_some() as usize;
+            if accepted.len() + pre > 1 {
+                out.push(Finding::new("second-put-accepted", "put:two-puts-of-one-key-accepted", format!("{} puts of key {} were accepted although the key was never deleted: {:?}", accepted.len() + pre, k, accepted.iter().map(|c| c.short()).collect::<Vec<_>>())));
+            }
+            for c in puts.iter().filter(|c| run.status_of(c.thread, c.idx) != Some(CommandStatus::Accepted)) {
+                let st = run.status_of(c.thread, c.idx);
+                if st != Some(CommandStatus::Rejected(RejectionReason::KeyAlreadyExists)) {
+                    out.push(Finding::new("loser-status", "put:concurrent-put-wrong-status", format!("{} ended with {:?}", c.short(), st.map(|s| status_short(&s)))));
+                }
+            }
+            // the entry is the one written by the accepted put (or the prologue), untouched by the rejected ones
+            if let Some(e) = run.obs_end.entry(k) {
+                let winner = accepted.first().map(|c| c.value).unwrap_or_else(|| run.obs_init.entry(k).map(|x| x.1));
+                if Some(e.1) != winner {
+                    out.push(Finding::new("put-overwrote", "put:overwrote-readable-key", format!("key {} ends with value {} but the accepted put wrote {:?}", k, e.1, winner)));
+                }
+                if let Some(wc) = accepted.first() {
+                    if let Op::Put { w: Some(w), ttl_ms, .. } = &wc.op {
+                        if run.obs_end.weight_of_id(e.2) != Some(*w) || e.3.is_some() != ttl_ms.is_some() {
+                            out.push(Finding::new("put-overwrote", "put:overwrote-weight-or-expiry", format!("key {} ends with weight {:?} / expiry {:?} but the accepted put was {}", k, run.obs_end.weight_of_id(e.2), e.3, wc.short())));
+                        }
+                    }
+                }
+            }
+        }
+        for f in accounting_violations(&run.obs_end) {
+            out.push(Finding::new("accounting", "put:accounting-broken", f));
+        }
+    })
+}
+
+fn ilv_programs() -> Vec<Program> {
+    let mut v = Vec::new();
+    let mk = |name: &str, init: Vec<Op>, threads: Vec<Vec<Op>>| {
+        let mut p = Program::new(name);
+        p.setup = Setup { weight: 100, queue: 2, ..Setup::default() };
+        p.init = init;
+        p.threads = threads;
+        p
+    };
+    let variants = [("put_with_weight", None), ("put_with_weight_and_ttl", Some(5000u64))];
+    for (na, ta) in variants {
+        for (nb, tb) in variants {
+            v.push(mk(&format!("{}(k)||{}(k)", na, nb), vec![], vec![vec![Op::Put { k: 1, w: Some(2), ttl_ms: ta }], vec![Op::Put { k: 1, w: Some(3), ttl_ms: tb }]]));
+        }
+    }
+    v.push(mk("put_with_ttl(k);put(k)-one-thread", vec![], vec![vec![Op::Put { k: 1, w: None, ttl_ms: Some(5000) }, Op::Put { k: 1, w: None, ttl_ms: None }]]));
+    v.push(mk("put(k);put_with_ttl(k)-one-thread", vec![], vec![vec![Op::Put { k: 1, w: Some(2), ttl_ms: None }, Op::Put { k: 1, w: Some(3), ttl_ms: Some(5000) }]]));
+    v.push(mk("put_ttl(k)||put(k) on a live key", vec![put(1, 2)], vec![vec![Op::Put { k: 1, w: Some(3), ttl_ms: Some(5000) }], vec![Op::Put { k: 1, w: Some(4), ttl_ms: None }]]));
+    v
+}
 
 fn oracle() -> SeqOracle {
     Arc::new(|run: &SeqRun, out: &mut Vec<Finding>| {
@@ -27,12 +90,19 @@ fn oracle() -> SeqOracle {
             return;
         }
         let (k, w, ttl) = match &c.op {
-            Op::Put { k, w, ttl_ms } => (*k, *w, *ttl_ms),
+            Op::Put { k, w, ttl_ms } | Op::ProbedPut { k, w, ttl_ms } => (*k, *w, *ttl_ms),
             _ => return,
         };
         let st = run.statuses[i];
-        let (readable, specified) = model_read(before, k);
-        if !specified {
+        let (mut readable, specified) = model_read(before, k);
+        // a probed put carries what a real read returned right before the put: that *is* "currently readable"
+        // (it also settles the instant clock == expiry, which the snapshot model leaves open)
+        if let Res::ProbedWrite { read, .. } = &c.res {
+            if specified && *read != readable {
+                out.push(Finding::new("read-disagrees-with-state", "read:disagrees-with-snapshot", format!("get({}) returned {:?} but the stored entry says {:?}", k, read, readable)));
+            }
+            readable = *read;
+        } else if !specified {
             return;
         }
         let variant = match (w, ttl) {
@@ -91,6 +161,10 @@ fn spec(ctx: &Ctx, shards: usize) -> SeqSpec {
         Op::Put { k: 1, w: Some(2), ttl_ms: None },
         Op::Put { k: 1, w: None, ttl_ms: Some(1500) },
         Op::Put { k: 1, w: Some(3), ttl_ms: Some(1500) },
+        // expiry exactly reachable by the clock steps (1000 + 1000, or 2000): the boundary instant
+        Op::Put { k: 1, w: Some(2), ttl_ms: Some(2000) },
+        Op::ProbedPut { k: 1, w: Some(3), ttl_ms: None },
+        Op::ProbedPut { k: 1, w: None, ttl_ms: Some(1500) },
         Op::Delete { k: 1 },
         // heavy enough to need key 1's space (W = 5)
         Op::Put { k: 2, w: Some(4), ttl_ms: None },
@@ -114,6 +188,7 @@ fn spec(ctx: &Ctx, shards: usize) -> SeqSpec {
         oracle: oracle(),
         keys: vec![1, 2],
         canon_sketch: false,
+        ghost_key: None,
         max_states: 2_000_000,
         time_cap_s: if quick { 25.0 } else { 600.0 },
     }
@@ -125,12 +200,23 @@ pub fn def(ctx: &Ctx) -> PropertyDef {
         let name = spec(ctx, shards).name;
         scenarios.push(seq_scenario(move |c| spec(c, shards), &name));
     }
+    let quick = ctx.quick();
+    let workers = ctx.workers;
+    for p in ilv_programs() {
+        scenarios.push(program_scenario(p, ilv_oracle(), move |_c| IlvCfg {
+            bounds: if quick { vec![0, 1, 2] } else { vec![0, 1, 2, 3, 4] },
+            workers,
+            split_depth: 6,
+            time_cap_s: Some(if quick { 5.0 } else { 300.0 }),
+            max_executions: None,
+        }));
+    }
     let mut assumptions = COMMON_ASSUMPTIONS.to_vec();
     assumptions.push("readability before a put is taken from the state snapshot (entry present, not soft-deleted, clock not past its expiry); the same BFS checks in every state that all seven read variants return exactly that");
     PropertyDef {
         id: "C07",
-        technique: "explicit-state model checking of the real code: breadth-first search over operation sequences with canonical-state deduplication (fresh cache per transition, quiescence after every step)",
-        rule: "seq: all histories over the alphabet up to the depth; distinct_nontrivial = canonical states first reached at depth >= 2",
+        technique: "explicit-state model checking of the real code: breadth-first search over operation sequences with canonical-state deduplication (fresh cache per transition, quiescence after every step); plus stateless preemption-bounded model checking of several puts of one key in flight at once",
+        rule: "seq: all histories over the alphabet up to the depth (distinct_nontrivial = canonical states first reached at depth >= 2); ilv: every schedule up to the bound",
         assumptions,
         scenarios,
     }
